@@ -14,7 +14,7 @@ CHECKS = {
 CHECKS.update({
  'C03': dict(engine='proofsim', level='exploration', ref='DESIGN.md §6 C03',
    technique='deterministic simulation: seeded search over arguments x logics x option combinations x tie-break schedules x cache sizes, stepped under a lost-tick progress monitor; oracle = exhaustive truth-table enumeration in an independent reference semantics; root-cause diagnosis of wrong verdicts',
-   text='Seeded search over propositional arguments in all 57 logics under controlled tie-break order, options and cache size, no limits. Each verdict is compared with complete truth-table enumeration in R1, so soundness and completeness are decided exactly per explored argument; termination is monitored by the sound lost-tick criterion (step-budget overruns are only counted). Arguments, schedules and options are sampled.',
+   text='Seeded search over propositional arguments in all 57 logics under controlled tie-break order, options and cache size, no limits. Each verdict is compared with complete truth-table enumeration in R1, so soundness and completeness are decided exactly per explored argument; termination is monitored by the sound lost-tick criterion (step-budget overruns are only counted). Half of the runs sweep a systematic enumeration of every node shape ([negated] operator over literals / double negations) in every small literal context: quick = the whole enumeration in one logic per distinct set of truth-functional rule implementations, thorough = in all 57 logics; the other half samples arguments, schedules and options.',
    note='Trusts R1 (sim/ref/refsem.py) as transcription of the documented tables; known FDE-family evaluator discrepancy does not matter here because R1, not the library evaluator, is the oracle.'),
  'C16': dict(engine='proofsim', level='exploration', ref='DESIGN.md §6 C16',
    technique='deterministic simulation: invariant monitor over every prefix of schedule-dependent step histories, shadow tableau rebuilt from public events and step() return values, step-limit faults',
@@ -46,7 +46,7 @@ CHECKS.update({
    note='Limit-only outcomes never compared; R1 only attributes blame.'),
  'C11': dict(engine='proofsim', level='exploration', ref='DESIGN.md §6 C11',
    technique='deterministic simulation: pairs of independently scheduled runs of one argument in a declared (weaker, stronger) logic pair read from the registry, floor share per declared pair plus sampled transitive pairs',
-   text='For every declared extension pair (98 at this commit, each with a floor share; transitive pairs sampled) arguments in the weaker logic\'s vocabulary are proved in both logics under independent seeded configurations; a valid verdict in the weaker logic forbids a limit-free refutation in the stronger one. R1 says which side is wrong.',
+   text='For every declared extension pair (98 at this commit, each with a floor share; transitive pairs sampled) arguments in the weaker logic\'s vocabulary are proved in both logics under independent seeded configurations; a valid verdict in the weaker logic forbids a limit-free refutation in the stronger one. R1 says which side is wrong. Every 6th run sweeps a systematic family (all unary modal chains up to length 6/7 x 3 kernels x 2 conclusions) on D -> T, the one declared pair whose rule sets are not nested.',
    note='Arguments are sampled and biased to ones the weaker logic proves (mutated library examples).'),
  'C05': dict(engine='branchsim+proofsim', level='exploration', ref='DESIGN.md §6 C05',
    technique='deterministic simulation: seeded arrival histories of literal constraint nodes on a rule-only tableau (orders, forks between arrivals, duplicate nodes, seeded hash order) judged by satisfiability in an independent reference semantics; closure-event monitor on whole proofs',
@@ -54,8 +54,8 @@ CHECKS.update({
    note='Forks are only generated from branches that cannot already close (a closable branch is never expanded by the prover); a 60-step limit bounds the serial rule on trunk-less tableaux.'),
  'C06': dict(engine='branchsim+proofsim', level='exploration', ref='DESIGN.md §6 C06',
    technique='deterministic simulation: seeded append / access / copy / fork histories on Branch judged after every operation by the symbols actually occurring on each live branch (R5); step monitor on whole proofs for witness-introducing rules',
-   text='Seeded histories (<=10 ops, 7-constant pool with subscripts, worlds in sentence and access nodes, copies and forks extended independently) with the freshness invariant checked on every live branch after every operation; in whole proofs (biased to quantifier/modal/serial witnesses, constants in mixed first-appearance order) every constant or world introduced by a ticking quantifier/modal rule or the serial rule must be new to the branch.',
-   note='Histories and proofs are sampled.'),
+   text='Exhaustive enumeration of all branch histories of depth 4 (thorough 5) over a 19-operation alphabet, plus seeded histories (<=10 ops, 7-constant pool with subscripts, worlds in sentence and access nodes, copies and forks extended independently) with the freshness invariant checked on every live branch after every operation; in whole proofs (biased to quantifier/modal/serial witnesses, constants in mixed first-appearance order) every constant or world introduced by a ticking quantifier/modal rule or the serial rule must be new to the branch.',
+   note='Longer histories and proofs are sampled.'),
  'C13': dict(engine='parsesim', level='exploration', ref='DESIGN.md §6 C13',
    technique='deterministic simulation: seeded parse histories on long-lived parsers with input faults (truncate, flip, insert, foreign characters, delete, duplicate span, stray parenthesis, swapped variable) and sliced exhaustive short strings; per-parse oracle = exception type, deterministic trace-event budget, structural well-formedness walker, fresh twin parser with the prior declarations',
    text='Long-lived Polish and standard parsers (auto_preds, drop_parens, empty / declared / frozen stores) receive histories of valid, fault-mutated, random and exhaustively short inputs; each parse must return a closed, non-vacuous, arity-correct sentence or raise ParseError within a deterministic event budget, and must equal the result of a fresh twin parser carrying the declarations as they were before the call. Inputs and histories are sampled (strings <= 3 characters are enumerated across the runs of a batch).',
